@@ -30,6 +30,7 @@ import SF.Proofs.CborFailAt
 import SF.Proofs.UbjEncTop
 import SF.Proofs.JsonEncTop
 import SF.Proofs.JsonRefineTop
+import SF.Proofs.UbjChunkTop
 namespace SF.Props.C16
 open SF SF.Cbor SF.Cbor.Enc
 
@@ -311,3 +312,39 @@ theorem json_writeChunks_returns_visitor_error (k : Nat) (cs : List Bytes) :
   SF.Json.RefineTop.json_writeChunks_returns_visitor_error k cs
 
 end SF.PropsJsonP.C16
+
+
+/-! ## UBJSON parser (proofs SF/Proofs/UbjChunkFault.lean, UbjChunkTop.lean) — unconditional -/
+
+namespace SF.PropsUbjP.C16
+open SF SF.Ubjson SF.Ubjson.Parse
+
+/-- C16 for the UBJSON parser, `Parse`: for EVERY byte string (valid or not) and EVERY fault
+index k — with a visitor that returns an error from its k-th event on, `ubjson.Parse` either
+never reached event k (at most k events delivered, and any error is the parser's own), or it
+returns THE VISITOR'S error and event k is the last event delivered: nothing of the document
+reaches the visitor after its error -/
+theorem ubj_parser_returns_visitor_error (k : Nat) (b : Bytes) :
+    ((parse (init (some k)) b).2 ≠ some .visitor ∧ (parse (init (some k)) b).1.evs.length ≤ k) ∨
+    ((parse (init (some k)) b).2 = some .visitor ∧ (parse (init (some k)) b).1.evs.length = k + 1) :=
+  SF.Props.UbjChunk.ubj_parser_returns_visitor_error k b
+
+/-- … and `Write*` + end of input (`ParseReader`), EVERY chunking -/
+theorem ubj_writeChunks_returns_visitor_error (k : Nat) (cs : List Bytes) :
+    ((writeChunks (init (some k)) cs).2 ≠ some .visitor ∧ (writeChunks (init (some k)) cs).1.evs.length ≤ k) ∨
+    ((writeChunks (init (some k)) cs).2 = some .visitor ∧ (writeChunks (init (some k)) cs).1.evs.length = k + 1) :=
+  SF.Props.UbjChunk.ubj_writeChunks_returns_visitor_error k cs
+
+/-- with no fault index the visitor never fails: no visitor error is ever reported -/
+theorem ubj_no_visitor_error (cs : List Bytes) : (writeChunks (init none) cs).2 ≠ some .visitor :=
+  SF.Props.UbjChunk.ubj_no_visitor_error cs
+
+/-- non-vacuity: the visitor fails at its 4th event (the first element of the typed array inside
+the counted object): the error is the visitor's, 4 events were delivered — whole and byte by byte -/
+example : (parse (init (some 3)) SF.Props.UbjChunk.doc).2 = some .visitor ∧
+    (parse (init (some 3)) SF.Props.UbjChunk.doc).1.evs.length = 4 ∧
+    (writeChunks (init (some 3)) (SF.Props.UbjChunk.doc.map fun x => [x])).2 = some .visitor ∧
+    (writeChunks (init (some 3)) (SF.Props.UbjChunk.doc.map fun x => [x])).1.evs.length = 4 := by
+  decide +kernel
+
+end SF.PropsUbjP.C16
